@@ -170,9 +170,17 @@ def diff(a: Any, b: Any, path: str = "") -> Optional[str]:
 
 
 # ------------------------------------------------------------------ C09-ATTR
-def emitted_lines(fi) -> List[Tuple[str, ast.AST]]:
-    """(kind, node) for every line literal the writer can emit: 'v=' ... or 'a=<name>' or 'a=<dynamic:expr>'."""
+def emitted_lines(fi, prog: Program = None, _seen: Set[str] = None) -> List[Tuple[str, ast.AST]]:
+    """(kind, node) for every line literal the writer can emit: 'v=' ... or 'a=<name>' or 'a=<dynamic:expr>'; helper methods of the class that the writer calls are followed."""
     out = []
+    _seen = _seen if _seen is not None else set()
+    _seen.add(fi.qualname)
+    if prog is not None and fi.cls is not None:
+        for c in walk_no_nested(fi.node):
+            if isinstance(c, ast.Call) and isinstance(c.func, ast.Attribute) and unparse(c.func.value) == "self":
+                h = prog.find_method(fi.cls, c.func.attr)
+                if h is not None and h.qualname not in _seen:
+                    out += emitted_lines(h, prog, _seen)
     inner = {id(v) for n in walk_no_nested(fi.node) if isinstance(n, ast.JoinedStr) for v in n.values}
     for n in walk_no_nested(fi.node):
         lit = None
@@ -464,7 +472,7 @@ def run(rep: Report, prog: Program, tier: str) -> None:
         handled["media"].add("m=")
     for scope, fi in (("session", sd_str), ("media", md_str)):
         seen = set()
-        for kind, node in emitted_lines(fi):
+        for kind, node in emitted_lines(fi, prog):
             if kind in seen:
                 continue
             seen.add(kind)
@@ -491,7 +499,21 @@ def run(rep: Report, prog: Program, tier: str) -> None:
         rep.ok("C09-ATTR", "DIRECTIONS holds the four direction attributes", sample=repr(dirs))
     else:
         rep.fail(mk_finding(prog, PROP, "C09-ATTR", anchor, anchor.node, f"DIRECTIONS={dirs!r} is not the set of the four direction attributes", construct="DIRECTIONS"))
-    uses = [fi.qualname for fi in (md_str, parse) if any(isinstance(n, ast.Name) and n.id == "SSRC_INFO_ATTRS" for n in ast.walk(fi.node))]
+    def _with_helpers(fi_, seen_=None):
+        """the function and the helpers of its class / module that it calls, transitively"""
+        seen_ = seen_ if seen_ is not None else {}
+        seen_[fi_.qualname] = fi_
+        for c in walk_no_nested(fi_.node):
+            if isinstance(c, ast.Call):
+                h = None
+                if isinstance(c.func, ast.Attribute) and unparse(c.func.value) in ("self", "cls") and fi_.cls is not None:
+                    h = prog.find_method(fi_.cls, c.func.attr)
+                elif isinstance(c.func, ast.Name):
+                    h = prog.functions.get(f"{fi_.module.name}.{c.func.id}")
+                if h is not None and h.qualname not in seen_:
+                    _with_helpers(h, seen_)
+        return list(seen_.values())
+    uses = [fi.qualname for fi in (md_str, parse) if any(isinstance(n, ast.Name) and n.id == "SSRC_INFO_ATTRS" for f_ in _with_helpers(fi) for n in ast.walk(f_.node))]
     if len(uses) == 2:
         rep.ok("C09-ATTR", "SSRC_INFO_ATTRS is consulted by writer and reader", sample=", ".join(uses))
     else:
